@@ -6,12 +6,14 @@
 pub mod macros;
 pub mod stubs;
 pub mod vlock;
+pub mod vleaf;
 pub mod util;
 
 mod c06_key;
 mod single;
 pub mod c07_dup;
 mod c08_order;
+mod c09_retry;
 mod c17_nonacq;
 mod probe;
 pub mod col;
